@@ -222,6 +222,26 @@ def handle (op : String) (args : List String) : Option String :=
           | some (.error e) => errStr e
           | some (.ok (ty, d)) => s!"ok {ty} {hex (Sha1.sha1 d)}"
       | _, _, _, _, _, _ => "bad-arg"
+  | "c04.refscache", n :: e :: ops => some <|
+      -- a packed-refs file whose parse yields `n` entries and then (e = 1) an error; `g` = get_packed_refs, `a` = a rewrite
+      -- adding one new ref; answers `ok <count>` / `err` per op
+      match nat? n, nat? e with
+      | some n, some e =>
+        let ent := fun (i : Nat) => (⟨[UInt8.ofNat i], [], none⟩ : RefEntry)
+        let file0 : Option RFile := some ⟨(List.range n).map ent, if e = 0 then none else some .format, 1⟩
+        let step := fun (st : Option RFile × RCache × Nat × List String) (op : String) =>
+          let (file, c, k, out) := st
+          if op = "g" then
+            match getPackedNow file c with
+            | (.ok r, c') => (file, c', k, out ++ [s!"ok {r.length}"])
+            | (.error _, c') => (file, c', k, out ++ ["err"])
+          else
+            match rewritePackedNow file c (k + 1) (fun r => r ++ [ent (100 + k)]) with
+            | (.ok _, file', c') => (file', c', k + 1, out ++ ["done"])
+            | (.error _, file', c') => (file', c', k, out ++ ["err"])
+        let (_, _, _, out) := ops.foldl step (file0, RCache.empty, 1, [])
+        String.intercalate " | " out
+      | _, _ => "bad-arg"
   | "c04.fsprog", [path, fail] => some <|
       let f? : Option FailAt := if fail = "never" then some .never else if fail = "copy" then some .copy
         else if fail = "validate" then some .validate else if fail = "validatezlib" then some .validateZlib else none
